@@ -136,6 +136,10 @@ pub struct World {
     pub compact_failed_mmap: bool,
     /// a simulated SIGSEGV that happened while the thread was already unwinding
     pub pending_segv: Option<SimSegv>,
+    /// "another thread is scheduled here": called after every OS-call boundary (mmap, munmap,
+    /// mprotect, cache flush) with the world as it is at that instant
+    pub observer: Option<Box<dyn FnMut(&World, &'static str)>>,
+    pub observer_calls: u64,
 }
 
 #[derive(Debug, Clone, Copy)]
@@ -173,6 +177,8 @@ impl World {
             next_serial: 1,
             compact_failed_mmap: true,
             pending_segv: None,
+            observer: None,
+            observer_calls: 0,
         }
     }
 
@@ -252,6 +258,21 @@ impl World {
             }
         }
         self.events.push(ev);
+    }
+
+    fn boundary(&mut self, what: &'static str) {
+        // the first 48 boundaries of an API call, then every 2048th (a full scan makes 131 074)
+        let n = self.observer_calls;
+        self.observer_calls += 1;
+        if n >= 48 && n % 2048 != 0 {
+            return;
+        }
+        if let Some(mut h) = self.observer.take() {
+            h(self, what);
+            if self.observer.is_none() {
+                self.observer = Some(h);
+            }
+        }
     }
 
     pub fn mark(&mut self, m: u32) {
@@ -395,6 +416,9 @@ impl World {
             );
         }
         self.log(Ev::Mmap { hint, len, prot, flags, ret });
+        if ret != u64::MAX {
+            self.boundary("mmap");
+        }
         ret
     }
 
@@ -427,6 +451,7 @@ impl World {
                 }
             }
             self.log(ev);
+            self.boundary("munmap");
             return 0;
         }
         self.split_at(addr);
@@ -438,6 +463,7 @@ impl World {
             own |= own_bit(r.owner);
         }
         self.log(Ev::Munmap { addr, len, ret: 0, own, exact });
+        self.boundary("munmap");
         0
     }
 
@@ -481,6 +507,7 @@ impl World {
             }
         }
         self.log(Ev::Mprotect { addr, len, prot, ret });
+        self.boundary("mprotect");
         ret
     }
 
@@ -580,6 +607,7 @@ impl World {
     pub fn flush(&mut self, start: u64, end: u64, kind: u8) {
         self.counters.flushes += 1;
         self.log(Ev::Flush { start, end, kind });
+        self.boundary("flush");
     }
 
     pub fn barrier(&mut self) {
